@@ -157,6 +157,7 @@ func (sc *Scheduler) Schedule(ctx context.Context, g *ExecutionGraph, done chan 
 
 			ExecRepeat:
 				for setupSucceed && !sc.isCanceled() {
+					retrying := false
 					execErr := sc.execNode(ctx, node)
 					if execErr != nil {
 						status := node.State().Status
@@ -185,6 +186,7 @@ func (sc *Scheduler) Schedule(ctx context.Context, g *ExecutionGraph, done chan 
 							time.Sleep(node.data.Step.RetryPolicy.Interval)
 							node.setRetriedAt(time.Now())
 							node.setStatus(NodeStatusNone)
+							retrying = true
 						default:
 							// finish the node
 							node.setStatus(NodeStatusError)
@@ -205,6 +207,12 @@ func (sc *Scheduler) Schedule(ctx context.Context, g *ExecutionGraph, done chan 
 					}
 					if execErr != nil && done != nil {
 						done <- node
+						return
+					}
+					if retrying {
+						// the node was handed back to the scheduling loop: this worker must not touch its
+						// status again (with done == nil it used to fall through to the "running -> finished"
+						// flip below and could mark the relaunched attempt finished)
 						return
 					}
 					break ExecRepeat
